@@ -212,3 +212,159 @@ def load_gir_dirs(dirs, patterns=('*.gir', '*.gir.in')):
                 if nsname:
                     out.append((f, tree, nsname, defs))
     return out
+
+
+# ====================================================================== (b) abstract case -> scanner input
+# case = {"nodes": [NodeRec...], "order": [ids]}   (schema of tla/IntrospectWalks.tla)
+PREFIX = {'alias': 'A', 'callback': 'Cb', 'function': 'f', 'record': 'R', 'enum': 'E', 'class': 'K'}
+
+
+def gi_name(i, kind):
+    return '%s%d' % (PREFIX[kind], i)
+
+
+def c_name(i, kind):
+    return 'foo_f%d' % i if kind == 'function' else 'Foo' + gi_name(i, kind)
+
+
+def render(case, S):
+    """-> dict(symbols, comments, dump_xml, names[per node: qualified GIR name], realizable)
+    S = harness.scan (symgen).  The symbols are emitted in case['order']; GType-dump classes are
+    appended by the scanner after everything else (the model orders them last as well)."""
+    nodes = case['nodes']
+    kind = {i + 1: n['kind'] for i, n in enumerate(nodes)}
+
+    def ctype(s, by_value=False):
+        if s['cont'] == 'list':
+            return 'GList *'
+        tk = s['tk']
+        if tk == 'node':
+            k = kind[s['tgt']]
+            cn = c_name(s['tgt'], k)
+            return cn + ' *' if k in ('record', 'class') and not by_value else cn
+        return {'fund': 'int', 'valist': 'va_list', 'longlong': 'long long', 'longdouble': 'long double',
+                'unres': 'BarUnknown' if by_value else 'BarUnknown *', 'foreign': 'GBytes' if by_value else 'GBytes *',
+                'any': 'gpointer'}[tk]
+
+    def elem(s):
+        if s['tk'] == 'node':
+            return c_name(s['tgt'], kind[s['tgt']])
+        return {'fund': 'gint', 'unres': 'BarUnknown'}[s['tk']]
+
+    def value_ann(s):
+        a = []
+        if s['vskip']:
+            a.append('(skip)')
+        if s['role'] == 'return' and s['xfer'] and (s['cont'] == 'list' or s['tk'] == 'node'):
+            a.append('(transfer none)')
+        if s['cont'] == 'list' and s['tk'] != 'any':
+            a.append('(element-type %s)' % elem(s))
+        return a
+
+    def callable_parts(s, allow_scope_ann):
+        """-> (ret ctype, params[(ctype,name)], varargs, param annotations, return annotations)"""
+        if s['role'] == 'return':
+            return ctype(s), [], False, [], value_ann(s)
+        if s['tk'] == 'varargs':
+            return 'void', [('int', 'n')], True, (['(skip)'] if s['vskip'] else []), []
+        pa = value_ann(s)
+        params = [(ctype(s), 'x')]
+        if s['scope']:
+            if allow_scope_ann:
+                pa.append('(scope call)')
+            else:
+                params.append(('GDestroyNotify', 'destroy'))    # scope notified through the heuristic
+        return 'void', params, False, pa, []
+
+    def block(ident, node_ann, pname, pann, rann, line):
+        t = ['/**', ' * %s:%s' % (ident, (' ' + ' '.join(node_ann)) if node_ann else '')]
+        if pann:
+            t.append(' * @%s: %s: p' % (pname, ' '.join(pann)))
+        if rann:
+            t += [' *', ' * Returns: %s: r' % ' '.join(rann)]
+        t.append(' */')
+        return ('\n'.join(t), '/src/foo.c', line)
+
+    symbols, comments, dump, names = [], [], [], {}
+    moved_host = [i for i in case['order'] if kind[i] in ('record', 'enum')]
+    for pos, i in enumerate(case['order']):
+        n = nodes[i - 1]
+        k = n['kind']
+        s = n['site']
+        cn = c_name(i, k)
+        line = 10 * (pos + 1)
+        nann = ['(skip)'] if n['nskip'] else []
+        names[i] = 'Foo.' + gi_name(i, k)
+        if k == 'alias':
+            symbols.append(S.alias(cn, ctype(s, by_value=True), line=line))
+            if nann:
+                comments.append(block(cn, nann, None, [], [], line))
+        elif k in ('callback', 'function'):
+            ret, params, va, pann, rann = callable_parts(s, k == 'function')
+            pname = '...' if va else 'x'
+            if k == 'callback':
+                symbols.append(S.callback(cn, ret, params, varargs=va, line=line))
+            else:
+                if n.get('moved') and moved_host:
+                    h = moved_host[0]
+                    cn = 'foo_%s%d_fn%d' % (PREFIX[kind[h]].lower(), h, i)
+                    names[i] = 'Foo.%s%d_fn%d' % (PREFIX[kind[h]].lower(), h, i)
+                symbols.append(S.function(cn, ret, params, varargs=va, line=line))
+            if nann or pann or rann:
+                comments.append(block(cn, nann, pname, pann, rann, line))
+        elif k == 'record':
+            symbols.append(S.typedef_struct(cn, '_' + cn, line=line))
+            symbols.append(S.struct_def('_' + cn, [(ctype(s), 'f')], line=line + 1))
+            fa = value_ann(s)
+            if nann or fa:
+                comments.append(block(cn, nann, 'f', fa, [], line))
+        elif k == 'enum':
+            symbols.append(S.typedef_enum(cn, [('FOO_E%d_A' % i, 0), ('FOO_E%d_B' % i, 1)], line=line))
+            if nann:
+                comments.append(block(cn, nann, None, [], [], line))
+        elif k == 'class':
+            lc = 'foo_k%d' % i
+            ret, params, va, pann, rann = callable_parts(s, True)
+            symbols.append(S.typedef_struct(cn, '_' + cn, line=line))
+            symbols.append(S.typedef_struct(cn + 'Class', '_' + cn + 'Class', line=line))
+            symbols.append(S.struct_def('_' + cn, [('GObject', 'parent_instance')], line=line + 1))
+            symbols.append(S.struct_def('_' + cn + 'Class', [
+                ('GObjectClass', 'parent_class'),
+                S.member(S.funcptr('void', [(cn + ' *', 'self')] + params, varargs=va), 'set_p')], line=line + 2))
+            symbols.append(S.function(lc + '_get_type', 'GType', [], line=line + 3))
+            symbols.append(S.function(lc + '_set_p', 'void', [(cn + ' *', 'self')] + params, varargs=va, line=line + 4))
+            if pann:
+                comments.append(block(lc + '_set_p', [], '...' if va else 'x', pann, [], line + 4))
+            if nann:
+                comments.append(block(cn, nann, None, [], [], line))
+
+            def gtn(st_):
+                if st_['tk'] == 'node':
+                    return c_name(st_['tgt'], kind[st_['tgt']])
+                return {'fund': 'gint', 'unres': 'BarNope'}.get(st_['tk'], 'gint')
+            dump.append('<class name="%s" get-type="%s_get_type" parents="GObject">'
+                        '<property name="p" type="%s" flags="3"/>'
+                        '<signal name="sig" return="void"><param type="%s"/><param type="%s"/></signal></class>'
+                        % (cn, lc, gtn(n['psite']), cn, gtn(n['ssite'])))
+    dump_xml = ('<?xml version="1.0"?><dump>%s</dump>' % ''.join(dump)) if dump else None
+    return dict(symbols=symbols, comments=comments, dump_xml=dump_xml,
+                names=[names[i + 1] for i in range(len(nodes))])
+
+
+def marks_of(tree):
+    """[{q, marked}] for the top-level elements and their direct members (structural)."""
+    ns = namespace_of(tree)
+    nsname = ns['attrs'].get('name', '')
+    out = []
+    for c in ns['children']:
+        n = _name_of(c)
+        if not n:
+            continue
+        q = '%s.%s' % (nsname, n)
+        m = c['attrs'].get('introspectable') == '0'
+        out.append(dict(q=q, marked=m))
+        for k in c['children']:
+            if k['tag'] in ('field', 'property', 'method', 'virtual-method', 'glib:signal', 'function', 'constructor'):
+                out.append(dict(q='%s/%s:%s' % (q, k['tag'], _name_of(k)),
+                                marked=m or k['attrs'].get('introspectable') == '0'))
+    return out
